@@ -2,7 +2,9 @@
 
 Functions under contract (real AST, re-read each run):
   html_extractor._HtmlTreeBuilder.__init__/handle_starttag/handle_endtag/handle_data/handle_comment/get_tree
-  epub_extractor._XhtmlTextExtractor.__init__/handle_starttag/handle_endtag/handle_data
+  epub_extractor._XhtmlTextExtractor.__init__/handle_starttag/handle_endtag/handle_data/get_text (get_text: round 7)
+  mhtml_extractor._find_html_part/_decode_content (round 7, abstract MIME view: contracts/C17_glue.py), _extract_from_mhtml, read_mhtml;
+  html_extractor.read_html, msg_email_extractor._looks_like_html/_html_to_text/read_msg_format_mail, epub_extractor._extract_chapter
 
 Spec (ghost state, written from the property statement, DESIGN 3/C17): a region
 rho in {None} + (tag, depth).  A removable, non-void element opens a region;
